@@ -340,6 +340,47 @@ Definition S_LOCALHOST : str := [108;111;99;97;108;104;111;115;116].
 Definition S_LOOPBACK : str := [49;50;55;46;48;46;48;46;49].
 Definition is_local (host : str) : bool := str_eqb host S_LOCALHOST || str_eqb host S_LOOPBACK.
 
+(* ---------- the exact key ---------- *)
+(* The configured key is the value of FZF_API_KEY, byte for byte: nothing is taken off it, nothing is
+   folded.  The value of a header line, however, is what stands between the white space around it.
+   A configured key that itself begins or ends with white space (a blank-only one included) can therefore
+   never be presented: it is still a configured key, so every request has to be refused. *)
+Definition key_presentable (key : str) : bool := str_eqb (trim_space key) key.
+
+(* the key one header line presents (k: what the lines before it presented) *)
+Definition key_of_line (k : str) (text : str) : str :=
+  match split_first 58 text with
+  | Some (n, v) => if str_eqb (lower_name n) S_X_API_KEY then trim_space v else k
+  | None => k
+  end.
+
+(* over the lines that follow the request line, up to the blank line; a last line the client did not
+   terminate counts too; a later header overrides an earlier one *)
+Fixpoint spec_key_lines (fuel : nat) (s : str) (k : str) : str :=
+  match fuel with
+  | O => k
+  | S f =>
+      match cut_line s with
+      | None => key_of_line k s
+      | Some (l, r) =>
+          match l with
+          | [] => k
+          | _ => spec_key_lines f r (key_of_line k (l ++ CRLF))
+          end
+      end
+  end.
+
+(* the key a complete request presents ([] = none) *)
+Definition spec_presented_key (s : str) : str :=
+  match cut_line s with
+  | None => []
+  | Some (_, r) => spec_key_lines (S (length r)) r []
+  end.
+
+(* may this request be served?  (no key configured: everybody; otherwise the exact key) *)
+Definition spec_authorised (key : str) (s : str) : bool :=
+  match key with [] => true | _ => str_eqb (spec_presented_key s) key end.
+
 (* ---------- what a GET asks for and what it is shown ---------- *)
 (* the parameters a GET request line asks for (None: not a GET request line) *)
 Definition spec_get_request (line : str) : option (Z * Z) := option_map get_params (get_match line).
